@@ -1616,6 +1616,11 @@ def _sh_isinstance(ex, node, x, t):
 
 
 def _sh_sum(ex, node, x, start=0):
+    if isinstance(x, (list, tuple)) and any(isinstance(v, NdArr) for v in x):
+        r = start                      # builtin sum: ((start + a0) + a1) + ... ; `+` on ndarrays is element-wise and returns a fresh array
+        for v in x:
+            r = ex.binop(ast.Add(), r, v, node)
+        return r
     if isinstance(x, (list, tuple)):
         r = _num(start)
         for v in x:
